@@ -330,6 +330,15 @@ theorem key_simulation (sp : StripFn) (k : KeyDecl) (root : Loc) (s : String) (h
     (keyLookup sp k root s).map (List.map (XNode.strip sp)) = keyLookup noStrip k (root.strip sp) s :=
   keyLookup_strip sp k root s h
 
+/-- `key(name, arg)` with a node-set (or any other) argument: one lookup per member with the member's strip-aware
+string value; the united result corresponds. -/
+theorem key_argument_simulation (sp : StripFn) (k : KeyDecl) (root : Loc) (e : Expr) (c : Ctx)
+    (h : root.stripped sp = false) (hc : c.ok sp) :
+    (keyLookupArg sp k root (e.eval sp c)).map (List.map (XNode.strip sp))
+      = keyLookupArg noStrip k (root.strip sp) (e.eval noStrip (c.strip sp)) := by
+  rw [← strip_simulation sp e c hc]
+  exact keyLookupArg_strip sp k root _ h
+
 /-- non-vacuity for copy-of and keys: `<a> <b> </b>x</a>`, strip `a`; copying `/a` yields no whitespace
 event for the first text but keeps the one inside `b`; `key(match=text(), use=local-name(..))` finds one text
 under `a`. -/
@@ -413,5 +422,18 @@ theorem observation_sites_accounted : XalanModel.Generated.C13_Sites.sites = exp
 /-- The statements that fix the order of `m_whitespaceElements`, the first-match decision and the `xml:space`
 walk read as the model transcribes them. -/
 theorem ordering_code_as_modelled : XalanModel.Generated.C13_Sites.facts = expectedFacts := rfl
+
+/-- Every place outside `DOMServices` that computes a node's string value (`key()` with a node-set argument, `id()`,
+`string()`, `normalize-space()`, `string-length()`, `sum()`, `xsl:value-of`, sort keys, the `use` values of key tables,
+node-set → string conversions) is the reviewed list: each hands the execution context to `DOMServices::getNodeData`
+(the strip-aware overload) — except the ten context-free sites named in `Sites.lean`. -/
+theorem string_value_sites_strip_aware :
+    XalanModel.Generated.C13_Sites.valueSitesOutside = expectedValueSitesOutside := rfl
+
+/-- Inside `DOMServices`, in every function that receives the execution context, each recursive call
+(`getNodeData / getChildData / getChildrenData / doGetNodeData`) hands it on; the calls that do not are the attribute /
+comment / PI leaves and the fast-path wrappers guarded by `!context.hasPreserveOrStripSpaceConditions()`. -/
+theorem string_value_funnel_passes_context :
+    XalanModel.Generated.C13_Sites.valueSitesFunnel = expectedValueSitesFunnel := rfl
 
 end XalanModel.Props.C13
